@@ -1,6 +1,6 @@
 """C02 — no memory-unsafe access is reachable (claimed in part): R-TF, R-UNSAFE census/obligations, type-level witnesses."""
 from ..engine import Ctx, LIB_CRATES
-from . import tf, unsafe_rules
+from . import tf, unsafe_rules, kernel_sub
 
 
 def main(pid, tier, repo=None):
@@ -16,6 +16,7 @@ def main(pid, tier, repo=None):
         unsafe_rules.rule_transmute(ctx)
         unsafe_rules.rule_grouped(ctx)
         unsafe_rules.rule_type_census(ctx, "grid")
+        kernel_sub.run(ctx, [k for k, v in unsafe_rules.CENSUS.items() if v[0] == "h"])
     if tier == "thorough":
         from .. import witness
         witness.rule(ctx, ["MutableViewIsNotClone", "MutableViewIsNotCopy", "RawViewConstructionIsUnsafe", "SplitHalvesBorrowParent"])
